@@ -239,7 +239,11 @@ func faultyOps(cs *c13case, rng *rand.Rand) {
 								bad[body]++
 							}
 						case CodecGzip:
-							bad[body] ^= 0xFF
+							if rng.Intn(2) == 0 {
+								bad[body] ^= 0xFF // wrong magic: refused before inflating
+							} else {
+								bad[body+int(pg.Comp)-5] ^= 0x01 // wrong CRC-32 in the trailer: fails after inflating
+							}
 						}
 					}
 				}
